@@ -1,107 +1,36 @@
-------------------------------- MODULE TDesc -------------------------------
-(* Layer 1 for C14: when a parsed Thrift descriptor graph mirrors an IDL.     *)
-(* IDL side (flat, by "file:Name" keys):                                      *)
-(*   typedefs = seq of [key, ty], enums = seq of keys, structs = seq of       *)
-(*   [key, name, kind, fields: seq of [id, name, alias, req, ty]],            *)
-(*   svcs = seq of [key, name, extends, funcs: seq of [name, oneway, arg,     *)
-(*   ret, throws]], mainsvcs = keys of the main file's services in order.     *)
-(*   ty = [t, bin, ref, a]: t = 0 is a named reference (typedef/enum/struct)  *)
-(* Descriptor side (by identity): nodes = seq of [id, sname, fields: seq of   *)
-(*   [id, name, alias, req, ty: [t, bin, a, node]], found: seq of ids for     *)
-(*   which FieldById is non-nil (sweep 0..65535), same, keys: seq of [key,    *)
-(*   go, nat]]; fns = seq of [name, oneway, hasreq, hasresp, argok, argty,    *)
-(*   retty, throk, thrty] (argty.node / thrty.node carry node*100000 + id).   *)
-(* o = [enum64, mapway, svcmode, svcname, optbm].                             *)
-EXTENDS Sequences, FiniteSets, Integers, TLC
+-------------------------------- MODULE TDesc --------------------------------
+(* Layer 0: abstract Thrift descriptors.                                      *)
+(*   type   [t, n, a]   t = type code, n = struct name ("" otherwise),        *)
+(*                      a = argument types: <<>> | <<elem>> | <<key, val>>    *)
+(*   field  [id, name, req, ty]            req in {"req", "def", "opt"}       *)
+(*   defs   record: struct name |-> sequence of fields (declaration order)    *)
+(* Struct types are referenced by name so that recursive types are finite.    *)
+EXTENDS TValue
 
-KIdx(seq, key) == LET S == {i \in 1..Len(seq) : seq[i].key = key} IN IF S = {} THEN 0 ELSE CHOOSE i \in S : TRUE
-\* resolve typedef chains and enums: [t, bin, a, sref]
-RECURSIVE Resolve(_, _, _, _)
-Resolve(ty, typedefs, enums, o) ==
-  IF ty.ref = "" THEN [t |-> ty.t, bin |-> ty.bin, a |-> [i \in 1..Len(ty.a) |-> Resolve(ty.a[i], typedefs, enums, o)], sref |-> ""]
-  ELSE IF KIdx(typedefs, ty.ref) # 0 THEN Resolve(typedefs[KIdx(typedefs, ty.ref)].ty, typedefs, enums, o)
-  ELSE IF \E i \in 1..Len(enums) : enums[i] = ty.ref THEN [t |-> IF o.enum64 THEN 10 ELSE 8, bin |-> FALSE, a |-> <<>>, sref |-> ""]
-  ELSE [t |-> 12, bin |-> FALSE, a |-> <<>>, sref |-> ty.ref]
-RECURSIVE TyEq(_, _), TyPairs(_, _)
-TyEq(d, x) == d.t = x.t /\ d.bin = x.bin /\ Len(d.a) = Len(x.a) /\ (\A i \in 1..Len(x.a) : TyEq(d.a[i], x.a[i])) /\ ((x.sref = "") <=> (d.node = 0))
-\* struct nodes paired with struct keys inside a pair of matching types
-TyPairs(d, x) == (IF x.sref # "" /\ d.node # 0 THEN {<<d.node, x.sref>>} ELSE {})
-                 \cup UNION {TyPairs(d.a[i], x.a[i]) : i \in 1..(IF Len(d.a) < Len(x.a) THEN Len(d.a) ELSE Len(x.a))}
-\* ---- functions a mode exposes ----
-RECURSIVE FuncsOf(_, _, _)
-FuncsOf(key, svcs, depth) == LET i == KIdx(svcs, key) IN
-  IF i = 0 \/ depth > 8 THEN <<>> ELSE svcs[i].funcs \o (IF svcs[i].extends = "" THEN <<>> ELSE FuncsOf(svcs[i].extends, svcs, depth + 1))
-SvcKeys(mainsvcs, svcs, o) ==
-  IF o.svcname # "" THEN SelectSeq(mainsvcs, LAMBDA k : svcs[KIdx(svcs, k)].name = o.svcname)
-  ELSE IF o.svcmode = "first" THEN <<mainsvcs[1]>> ELSE IF o.svcmode = "combine" THEN mainsvcs ELSE <<mainsvcs[Len(mainsvcs)]>>
-RECURSIVE CatFuncs(_, _)
-CatFuncs(keys, svcs) == IF keys = <<>> THEN <<>> ELSE FuncsOf(keys[1], svcs, 0) \o CatFuncs(Tail(keys), svcs)
-ExpFuncs(mainsvcs, svcs, o) == CatFuncs(SvcKeys(mainsvcs, svcs, o), svcs)
-ExpSvcName(mainsvcs, svcs, o) == IF o.svcname # "" THEN o.svcname ELSE IF o.svcmode = "combine" THEN "CombinedServices"
-                                 ELSE svcs[KIdx(svcs, SvcKeys(mainsvcs, svcs, o)[1])].name
-\* ---- a struct node against a struct-like declaration ----
-\* the members of a union are implicitly optional
-ExpReq(st, f) == IF st.kind = "union" THEN "opt" ELSE f.req
-ExpAlias(f) == IF f.alias = <<>> THEN f.name ELSE f.alias
-FIdx14(fields, id) == LET S == {i \in 1..Len(fields) : fields[i].id = id} IN IF S = {} THEN 0 ELSE CHOOSE i \in S : TRUE
-ExpKeyId(st, key, o) ==
-  LET S == {i \in 1..Len(st.fields) : \/ (o.mapway \in {"alias", "both"} /\ ExpAlias(st.fields[i]) = key)
-                                       \/ (o.mapway \in {"name", "both"} /\ st.fields[i].name = key)} IN
-  IF S = {} THEN -1 ELSE st.fields[CHOOSE i \in S : TRUE].id
-NodeWhy(dn, st, typedefs, enums, o) ==
-  IF Len(dn.fields) # Len(st.fields) THEN "field-count"
-  ELSE IF {dn.found[i] : i \in 1..Len(dn.found)} # {st.fields[i].id : i \in 1..Len(st.fields)} THEN "id-lookup"
-  ELSE IF ~dn.same THEN "id-lookup-identity"
-  ELSE LET bad == {i \in 1..Len(dn.fields) : LET j == FIdx14(st.fields, dn.fields[i].id) IN
-                     j = 0 \/ dn.fields[i].name # st.fields[j].name \/ dn.fields[i].alias # ExpAlias(st.fields[j]) \/ dn.fields[i].req # ExpReq(st, st.fields[j])
-                     \/ ~TyEq(dn.fields[i].ty, Resolve(st.fields[j].ty, typedefs, enums, o))}
-           badKey == {k \in 1..Len(dn.keys) : dn.keys[k].go # ExpKeyId(st, dn.keys[k].key, o)}
-           badNat == {k \in 1..Len(dn.keys) : dn.keys[k].nat # -3 /\ dn.keys[k].nat # ExpKeyId(st, dn.keys[k].key, o)} IN
-       IF bad # {} THEN LET i == CHOOSE x \in bad : TRUE  j == FIdx14(st.fields, dn.fields[i].id) IN
-            IF j = 0 THEN "undeclared-field" ELSE IF dn.fields[i].name # st.fields[j].name THEN "field-name" ELSE IF dn.fields[i].alias # ExpAlias(st.fields[j]) THEN "field-alias"
-            ELSE IF dn.fields[i].req # ExpReq(st, st.fields[j]) THEN "field-requiredness" ELSE "field-type"
-       ELSE IF badKey # {} THEN "key-lookup" ELSE IF badNat # {} THEN "native-key-lookup" ELSE ""
-Kids14(dn, st, typedefs, enums, o) == UNION {LET j == FIdx14(st.fields, dn.fields[i].id) IN
-                                             IF j = 0 THEN {} ELSE TyPairs(dn.fields[i].ty, Resolve(st.fields[j].ty, typedefs, enums, o)) : i \in 1..Len(dn.fields)}
-RECURSIVE Reach14(_, _, _, _, _, _, _)
-Reach14(seen, todo, nodes, structs, typedefs, enums, o) ==
-  IF todo = {} THEN seen
-  ELSE LET pr == CHOOSE x \in todo : TRUE  si == KIdx(structs, pr[2])
-           kids == IF pr[1] \in 1..Len(nodes) /\ si # 0 THEN Kids14(nodes[pr[1]], structs[si], typedefs, enums, o) ELSE {} IN
-       Reach14(seen \cup {pr}, (todo \cup kids) \ (seen \cup {pr}), nodes, structs, typedefs, enums, o)
-\* argument / thrown type of a function wrapper: node field carries node*100000 + id
-Unwrap(d) == [d EXCEPT !.node = d.node \div 100000]
-WrapId(d) == d.node % 100000
-FnWhy(df, xf, typedefs, enums, o) ==
-  IF df.oneway # xf.oneway THEN "oneway"
-  ELSE IF ~df.hasreq \/ ~df.hasresp THEN "missing-request-or-response"
-  ELSE IF ~df.argok \/ WrapId(df.argty) # xf.arg.id \/ ~TyEq(Unwrap(df.argty), Resolve(xf.arg.ty, typedefs, enums, o)) THEN "request-argument"
-  ELSE IF ~df.throk THEN "response-fields"
-  ELSE IF Len(xf.throws) = 1 /\ (WrapId(df.thrty) # xf.throws[1].id \/ ~TyEq(Unwrap(df.thrty), Resolve(xf.throws[1].ty, typedefs, enums, o))) THEN "exception"
-  ELSE IF Len(xf.throws) = 0 /\ df.thrty.node # 0 THEN "exception"
-  ELSE IF xf.ret.t = 1 /\ xf.ret.ref = "" THEN ""        \* void: field 0 of the response is not constrained
-  ELSE IF ~TyEq(df.retty, Resolve(xf.ret, typedefs, enums, o)) THEN "return-type" ELSE ""
-FnRoots(df, xf, typedefs, enums, o) ==
-  TyPairs(Unwrap(df.argty), Resolve(xf.arg.ty, typedefs, enums, o))
-  \cup (IF Len(xf.throws) = 1 THEN TyPairs(Unwrap(df.thrty), Resolve(xf.throws[1].ty, typedefs, enums, o)) ELSE {})
-  \cup (IF xf.ret.t = 1 /\ xf.ret.ref = "" THEN {} ELSE TyPairs(df.retty, Resolve(xf.ret, typedefs, enums, o)))
-MirrorWhy(e) ==
-  LET o == e.o
-      exp == ExpFuncs(e.mainsvcs, e.svcs, o)
-      names == {exp[i].name : i \in 1..Len(exp)} IN
-  IF Cardinality(names) # Len(exp) THEN "unspecified:duplicate-method-names"
-  ELSE IF e.st # "ok" THEN "parse:" \o e.st
-  ELSE IF {e.fns[i].name : i \in 1..Len(e.fns)} # names \/ Len(e.fns) # Len(exp) THEN "function-set"
-  ELSE IF e.svcname # ExpSvcName(e.mainsvcs, e.svcs, o) THEN "service-name"
-  ELSE LET X(df) == exp[CHOOSE i \in 1..Len(exp) : exp[i].name = df.name]
-           badFn == {i \in 1..Len(e.fns) : FnWhy(e.fns[i], X(e.fns[i]), e.typedefs, e.enums, o) # ""} IN
-       IF badFn # {} THEN LET i == CHOOSE x \in badFn : TRUE IN "function-" \o FnWhy(e.fns[i], X(e.fns[i]), e.typedefs, e.enums, o)
-       ELSE LET roots == UNION {FnRoots(e.fns[i], X(e.fns[i]), e.typedefs, e.enums, o) : i \in 1..Len(e.fns)}
-                pairs == Reach14({}, roots, e.nodes, e.structs, e.typedefs, e.enums, o)
-                bad == {pr \in pairs : pr[1] \notin 1..Len(e.nodes) \/ KIdx(e.structs, pr[2]) = 0
-                                       \/ NodeWhy(e.nodes[pr[1]], e.structs[KIdx(e.structs, pr[2])], e.typedefs, e.enums, o) # ""} IN
-            IF bad = {} THEN ""
-            ELSE LET pr == CHOOSE x \in bad : TRUE IN
-                 IF pr[1] \notin 1..Len(e.nodes) \/ KIdx(e.structs, pr[2]) = 0 THEN "harness:dangling-reference"
-                 ELSE NodeWhy(e.nodes[pr[1]], e.structs[KIdx(e.structs, pr[2])], e.typedefs, e.enums, o)
+Ty(t) == [t |-> t, n |-> "", a |-> <<>>]
+TyStruct(n) == [t |-> T_STRUCT, n |-> n, a |-> <<>>]
+TyList(e) == [t |-> T_LIST, n |-> "", a |-> <<e>>]
+TySet(e) == [t |-> T_SET, n |-> "", a |-> <<e>>]
+TyMap(k, v) == [t |-> T_MAP, n |-> "", a |-> <<k, v>>]
+Fld(id, name, req, ty) == [id |-> id, name |-> name, req |-> req, ty |-> ty]
+
+FieldIdx(fields, id) == LET S == {i \in 1..Len(fields) : fields[i].id = id} IN IF S = {} THEN 0 ELSE CHOOSE i \in S : TRUE
+
+\* the zero value WriteEmpty produces for a type
+ZeroOf(ty) == IF FixedSize(ty.t) > 0 THEN Scalar(ty.t, [i \in 1..FixedSize(ty.t) |-> 0])
+              ELSE IF ty.t = T_STR THEN Scalar(T_STR, <<>>)
+              ELSE IF ty.t = T_STRUCT THEN Struct(<<>>)
+              ELSE IF ty.t = T_MAP THEN Map(ty.a[1].t, ty.a[2].t, <<>>)
+              ELSE Cont(ty.t, ty.a[1].t, <<>>)
+
+\* does the value conform to the type (every field declared, wire types as declared)?
+RECURSIVE Conforms(_, _, _)
+Conforms(v, ty, defs) ==
+  IF v.t # ty.t THEN FALSE
+  ELSE IF v.t = T_STRUCT THEN \A i \in 1..Len(v.f) :
+            LET k == FieldIdx(defs[ty.n], v.f[i].id) IN k > 0 /\ Conforms(v.f[i].v, defs[ty.n][k].ty, defs)
+  ELSE IF v.t \in {T_LIST, T_SET} THEN v.et = ty.a[1].t /\ \A i \in 1..Len(v.e) : Conforms(v.e[i], ty.a[1], defs)
+  ELSE IF v.t = T_MAP THEN v.kt = ty.a[1].t /\ v.vt = ty.a[2].t /\
+            \A i \in 1..Len(v.e) : Conforms(v.e[i].k, ty.a[1], defs) /\ Conforms(v.e[i].v, ty.a[2], defs)
+  ELSE TRUE
 =============================================================================
